@@ -1269,8 +1269,11 @@ class Node:
 
         """
         uri = parse_diameter_uri(peer_uri)
-        if uri.fqdn in self.peers:
-            return self.peers[uri.fqdn]
+        # diameter identities are compared case-insensitively: the Origin-Host
+        # of a CER or CEA is looked up in lower case
+        node_name = uri.fqdn.lower()
+        if node_name in self.peers:
+            return self.peers[node_name]
 
         transport = uri.params.get("transport", "tcp").lower()
         transport = PEER_TRANSPORT_SCTP if transport == "sctp" else PEER_TRANSPORT_TCP
@@ -1279,13 +1282,13 @@ class Node:
             raise RuntimeError("Peer is set to use SCTP, but pysctp is "
                                "not installed")
         peer = Peer(
-            node_name=uri.fqdn,
+            node_name=node_name,
             realm_name=realm_name or self.realm_name,
             transport=transport,
             port=uri.port,
             ip_addresses=ip_addresses or [],
             persistent=is_persistent)
-        self.peers[uri.fqdn] = peer
+        self.peers[node_name] = peer
         if is_default:
             self._peer_routes.setdefault(peer.realm_name, {})
             peers = self._peer_routes[peer.realm_name].setdefault("_default", [])
